@@ -4,3 +4,4 @@ import Proofs.Structure
 import Proofs.Range
 import Proofs.RangeOps
 import Proofs.Fitter
+import Proofs.FitterText
